@@ -17,6 +17,7 @@ import (
 	"github.com/ysugimoto/falco/v2/ast"
 	"github.com/ysugimoto/falco/v2/lexer"
 	"github.com/ysugimoto/falco/v2/parser"
+	"github.com/ysugimoto/falco/v2/tester/syntax"
 	"github.com/ysugimoto/falco/v2/token"
 )
 
@@ -31,14 +32,16 @@ import (
 // ---------------------------------------------------------------------------
 
 type entry struct {
-	name string
-	run  func(p *parser.Parser) (any, error)
+	name   string
+	run    func(p *parser.Parser) (any, error)
+	custom bool // with the test runner's custom parsers (describe blocks and hooks), as `falco test` parses
 }
 
 var entries = []entry{
-	{"ParseVCL", func(p *parser.Parser) (any, error) { return p.ParseVCL() }},
-	{"ParseSnippetVCL", func(p *parser.Parser) (any, error) { return p.ParseSnippetVCL() }},
-	{"ParseVCLOrSnippet", func(p *parser.Parser) (any, error) { return p.ParseVCLOrSnippet() }},
+	{"ParseVCL", func(p *parser.Parser) (any, error) { return p.ParseVCL() }, false},
+	{"ParseSnippetVCL", func(p *parser.Parser) (any, error) { return p.ParseSnippetVCL() }, false},
+	{"ParseVCLOrSnippet", func(p *parser.Parser) (any, error) { return p.ParseVCLOrSnippet() }, false},
+	{"ParseVCL+test-syntax", func(p *parser.Parser) (any, error) { return p.ParseVCL() }, true},
 }
 
 type passOutcome struct {
@@ -88,9 +91,16 @@ func runEntry(e entry, data []byte, plan simio.Plan, c *worker.Ctx) (out passOut
 		}
 	}()
 	tk = newCounting(lexer.New(r), len(r.Delivered()), false)
-	p := parser.New(tk)
+	var p *parser.Parser
+	if e.custom {
+		p = parser.New(tk, parser.WithCustomParser(syntax.CustomParsers()...))
+	} else {
+		p = parser.New(tk)
+	}
 	out.tree, out.err = e.run(p)
-	if out.err == nil {
+	if out.err == nil && !e.custom {
+		// (a describe block prints its hooks in the order of a Go map: its text
+		// is not a function of the tree, so it is not used as one)
 		out.rendered = renderTree(out.tree)
 	}
 	return
@@ -564,8 +574,12 @@ func runC01(c *worker.Ctx) {
 		msg   string
 	}
 	var kept []keptErr
-	for _, e := range entries {
+	var firstPlain passOutcome
+	for ei, e := range entries {
 		o := runEntry(e, delivered, base, c)
+		if ei == 0 {
+			firstPlain = o
+		}
 		outcomeSig = append(outcomeSig, o.class())
 		switch {
 		case o.panicV != nil:
@@ -600,9 +614,27 @@ func runC01(c *worker.Ctx) {
 			op := runEntry(e, data, plan, c)
 			if op.class() != o.class() || (o.err != nil && op.err != nil && o.err.Error() != op.err.Error()) ||
 				(o.class() == "tree" && (op.rendered != o.rendered || astcmp.Diff(o.tree, op.tree) != "")) {
-				res.Violate("C01/O5-delivery", "C01/delivery:"+e.name, fmt.Sprintf("%s outcome depends on delivery %s (same %d bytes): %s/%v vs all-at-once %s/%v", e.name, plan, len(delivered), op.class(), op.err, o.class(), o.err))
+				diff := ""
+				if o.class() == "tree" && op.class() == "tree" {
+					diff = "\ntree difference: " + astcmp.Diff(o.tree, op.tree)
+				}
+				res.Violate("C01/O5-delivery", "C01/delivery:"+e.name, fmt.Sprintf("%s outcome depends on delivery %s (same %d bytes): %s/%v vs all-at-once %s/%v%s", e.name, plan, len(delivered), op.class(), op.err, o.class(), o.err, diff))
 			}
 		}
+	}
+	// History: parsers with other options (the test runner's custom parsers)
+	// have existed since the first plain parse of this input. A plain parse of
+	// the same bytes must still end the same way.
+	if len(res.Violations) == 0 && firstPlain.panicV == nil && firstPlain.spin == "" {
+		again := runEntry(entries[0], delivered, base, c)
+		same := again.class() == firstPlain.class() && again.rendered == firstPlain.rendered
+		if same && again.err != nil && firstPlain.err != nil {
+			same = again.err.Error() == firstPlain.err.Error()
+		}
+		if !same {
+			res.Violate("C01/O5-independent-users", "C01/history:plain-parse-changed", fmt.Sprintf("the same bytes parsed again with a plain parser, after parsers with the test runner's custom syntax had parsed them, end differently: first %s (%v), now %s (%v)\ninput (%s, %s):\n%s", firstPlain.class(), firstPlain.err, again.class(), again.err, src.id, mutation, clipSrc(string(delivered))))
+		}
+		res.Probe("plain_parse_repeated_after_custom_parsers")
 	}
 	// An error value keeps designating its own text: a later parse (another
 	// entry point, another source) must not change what an earlier error says.
